@@ -21,7 +21,12 @@ import builtins as _b
 import math
 import operator
 
-from .loader import AnchorError, ClassInfo, FuncInfo, Project, dotted, short, src
+from .loader import AnchorError, ClassInfo, FuncInfo, Project, dotted, src
+from .loader import short as _short
+
+
+def short(n, k=200):
+    return _short(n, k)
 
 
 class Imprecise(Exception):
@@ -51,11 +56,12 @@ class _Continue(Exception):
 
 
 class Unknown:
-    __slots__ = ("sym", "neg")
+    __slots__ = ("sym", "neg", "meth")
 
-    def __init__(self, sym, neg=False):
+    def __init__(self, sym, neg=False, meth=False):
         self.sym = sym
         self.neg = neg
+        self.meth = meth     # attribute of an unknown value (calling it is a pure method call, not a user callback)
 
     def __repr__(self):
         return ("¬" if self.neg else "") + f"?{self.sym}"
@@ -228,6 +234,7 @@ class Interp:
         self._uk = 0
         self.watch_fields = set()      # (class name, field) whose writes are logged as events; (class name, '*') = all
         self.decisions = []            # (test text, outcome) for every branch taken on an Unknown
+        self.trace_calls = set()       # qualnames whose invocation is logged as ("call", qual)
         self._modenv = {}
 
     # ------------------------------------------------------------ helpers
@@ -433,6 +440,8 @@ class Interp:
             return self._method(f.recv, f.name, args, kwargs)
         if isinstance(f, ExtRef):
             return self._ext_call(f.name, args, kwargs)
+        if isinstance(f, Unknown) and f.meth:
+            return Unknown(f"{f.sym}({', '.join(_sym(a) for a in args)})")
         if isinstance(f, Unknown):
             self.event("extcall", f.sym, tuple(args))
             c = self.o.choose(2, f"callback {f.sym} returns / raises")
@@ -449,6 +458,8 @@ class Interp:
         qual = f.fi.qual if f.fi else name
         if f.self_obj is not None:
             args = [f.self_obj] + list(args)
+        if qual in self.trace_calls:
+            self.event("call", qual)
         stub = self.stubs.get(qual)
         if stub is not None:
             return stub(self, args, kwargs)
@@ -624,8 +635,8 @@ class Interp:
             c = self.eval(t.value, env, module)
             k = self.eval(t.slice, env, module)
             if isinstance(c, (dict, list)):
-                if isinstance(k, Unknown):
-                    raise Imprecise(f"store with unknown key into container at {module.rel}:{t.lineno}")
+                if isinstance(k, Unknown) and isinstance(c, list):
+                    raise Imprecise(f"store with unknown index into list at {module.rel}:{t.lineno}")
                 try:
                     c[k] = v
                 except IndexError:
@@ -994,6 +1005,8 @@ class Interp:
             return a is b
 
     def _contains(self, cont, item):
+        if isinstance(item, Unknown) and isinstance(cont, dict) and item in cont:
+            return True
         if isinstance(cont, Unknown) or (isinstance(item, Unknown) and not isinstance(cont, (str,))):
             sc = cont.sym if isinstance(cont, Unknown) else repr(cont)[:40]
             si = item.sym if isinstance(item, Unknown) else repr(item)
@@ -1073,7 +1086,7 @@ class Interp:
                 return Func(m.node, m.module, None, o, m, m.cls)
             raise PyRaise(ExcVal("AttributeError", (attr,)))
         if isinstance(o, Unknown):
-            return Unknown(f"{o.sym}.{attr}")
+            return Unknown(f"{o.sym}.{attr}", meth=True)
         if isinstance(o, ExtRef):
             return ExtRef(f"{o.name}.{attr}")
         if isinstance(o, ExcVal):
@@ -1111,7 +1124,7 @@ class Interp:
             hi = self.eval(e.slice.upper, env, module) if e.slice.upper else None
             stp = self.eval(e.slice.step, env, module) if e.slice.step else None
             if isinstance(c, Unknown) or any(isinstance(x, Unknown) for x in (lo, hi, stp)):
-                return self.fresh("slice")
+                return Unknown(f"{_sym(c)}[{'' if lo is None else _sym(lo)}:{'' if hi is None else _sym(hi)}]")
             return c[lo:hi:stp]
         k = self.eval(e.slice, env, module)
         if isinstance(c, Unknown):
@@ -1121,6 +1134,8 @@ class Interp:
             if mem is None:
                 raise PyRaise(ExcVal("KeyError", (k,)))
             return mem
+        if isinstance(k, Unknown) and isinstance(c, dict) and k in c:
+            return c[k]
         if isinstance(k, Unknown):
             if isinstance(c, (dict, list, tuple)) and len(c) == 0:
                 raise PyRaise(ExcVal("KeyError" if isinstance(c, dict) else "IndexError", (k,)))
@@ -1378,9 +1393,9 @@ class Interp:
             return ExcVal(last, tuple(args))
         if last == "field":
             return self.fresh("field")
-        # anything else outside the package: opaque, pure
+        # anything else outside the package: opaque, pure, deterministic in its arguments
         self.event("extcall", name, tuple(a for a in args if not isinstance(a, (list, dict))))
-        return self.fresh(f"{last}()")
+        return Unknown(f"{name}({', '.join(_sym(a) for a in args)})")
 
     def _isinstance(self, v, cls):
         if isinstance(cls, tuple):
@@ -1590,6 +1605,13 @@ class _DictView:
 
 
 _MISSING = object()
+
+
+def _sym(a):
+    if isinstance(a, Unknown):
+        return ("¬" if a.neg else "") + a.sym
+    r = repr(a)
+    return r if len(r) <= 40 else r[:37] + "…"
 
 
 def _opaque(v):
